@@ -448,6 +448,8 @@ class Ctx:
             "theorems": proof["theorems"],
             "proof_problems": proof["problems"],
             "props_sha256": proof.get("props_sha256", ""),
+            "axioms_reported": proof.get("axioms", []),
+            "coqchk": proof.get("coqchk", "not run in the quick tier"),
             "checker_cmd": "cd /verif/coq && coq_makefile -f _CoqProject -o Makefile && make -j16 && coqc -Q . CC Props/%s.v  (driver: /verif/check %s)" % (self.prop, self.prop),
             "trusted_base": TRUSTED_BASE_COMMON + meta.get("trusted_extra", []),
             "rule": meta.get("rule", ""),
@@ -473,9 +475,31 @@ class Ctx:
         return 1 if self.violations else 0
 
 
+def coqchk_stage(props, timeout=2400):
+    """Independent re-check (coqchk) of the compiled property files and everything they depend on."""
+    mods = ["CC.Props." + p for p in props]
+    rc, out = sh(["timeout", str(timeout), "coqchk", "-o", "-silent", "-Q", ".", "CC"] + mods, cwd=COQ, timeout=timeout + 60)
+    summary = out[out.find("CONTEXT SUMMARY"):] if "CONTEXT SUMMARY" in out else out[-1500:]
+    problems = []
+    if rc != 0:
+        problems.append("coqchk failed (rc %d): %s" % (rc, out[-1500:]))
+    for key in ("Axioms", "Constants/Inductives relying on type-in-type", "Constants/Inductives relying on unsafe (co)fixpoints",
+                "Inductives whose positivity is assumed"):
+        m = re.search(re.escape(key) + r":\s*(.*?)(?=\n\s*\*|\Z)", summary, flags=re.S)
+        val = m.group(1).strip() if m else "?"
+        if val != "<none>":
+            problems.append("coqchk: %s: %s" % (key, val[:500]))
+    return problems, summary
+
+
 def standard_proof_stage(ctx, extra_props=()):
     ctx.log("proof stage")
     ctx.proof = proof_stage(ctx.prop, extra_props)
+    if not ctx.quick and not ctx.proof["problems"] and os.environ.get("VERIF_NO_COQCHK") != "1":
+        ctx.log("coqchk (thorough tier)")
+        probs, summary = coqchk_stage((ctx.prop,) + tuple(extra_props))
+        ctx.proof["coqchk"] = summary[-600:]
+        ctx.proof["problems"] += probs
     if ctx.proof["problems"] or ctx.proof["discharged"] != ctx.proof["obligations"] or ctx.proof["obligations"] == 0:
         ctx.violation({"kind": "proof-obligation", "theorems": ctx.proof["theorems"],
                        "problems": ctx.proof["problems"],
